@@ -80,6 +80,16 @@ func buildHistCalls(filesDir string) ([]histCall, [][]byte) {
 		}
 	}
 	img["128x96few"], img["128x96other"], img["96x96photo"] = few, other, photoLike
+	img["17x17"], img["32x32"] = lossyPicture(rng, 17, 17, "graded"), noiseNRGBA(rng, 32, 32, 0)
+	tz := noiseNRGBA(rng, 48, 32, 0)
+	for y := 0; y < 32; y++ {
+		for x := 0; x < 48; x++ {
+			if (x/5+y/3)%3 == 0 {
+				tz.Pix[tz.PixOffset(x, y)+3] = 0 // transparent, colour stays
+			}
+		}
+	}
+	img["tzero48x32"] = tz
 	img["64x64noise"] = noiseNRGBA(rng, 64, 64, 0) // every pixel another colour: the colour-cache estimate has no true hits
 	// smooth content so that lossless analysis has real choices
 	for y := 0; y < 64; y++ {
@@ -109,8 +119,17 @@ func buildHistCalls(filesDir string) ([]histCall, [][]byte) {
 		13: {"96x96photo", webp.EncoderOptions{Lossless: true, Quality: 100, Method: 6}},
 		14: {"128x96other", webp.EncoderOptions{Lossless: true, Quality: 95, Method: 3}},
 		15: {"64x64noise", webp.EncoderOptions{Lossless: true, Quality: 90, Method: 4, Exact: true}},
+		// 16: transparent pixels that carry colour, kept by Exact (file #16 is what call 42 decodes and re-encodes);
+		// 17, 18: the sharp-YUV plane import on a picture that does not fill its 2x2 macroblock grid, and another
+		// picture on the same grid
+		16: {"tzero48x32", webp.EncoderOptions{Lossless: true, Quality: 60, Method: 3, Exact: true}},
+		17: {"17x17", webp.EncoderOptions{Quality: 60, Method: 4, UseSharpYUV: true}},
+		18: {"32x32", webp.EncoderOptions{Quality: 70, Method: 4}},
 	}
 	callOf := func(i int) int { // position of encode spec i in the call alphabet (ids 12..24 and 28, 29 were taken first)
+		if i >= 16 {
+			return i + 23
+		}
 		if i >= 15 {
 			return i + 15
 		}
@@ -125,7 +144,7 @@ func buildHistCalls(filesDir string) ([]histCall, [][]byte) {
 		}
 	}
 	files := make([][]byte, len(encs)+10)
-	calls := make([]histCall, 39)
+	calls := make([]histCall, 43)
 	for i, e := range encs {
 		i, e := i, e
 		if filesDir == "" {
@@ -167,6 +186,24 @@ func buildHistCalls(filesDir string) ([]histCall, [][]byte) {
 	dec(16, "Decode(file#8 lossless)", files[8], "lossless.Decoder")
 	dec(17, "Decode(file#9 palette)", files[9], "lossless.Decoder")
 	dec(18, "Decode(file#11 lossless alpha)", files[11], "lossless.Decoder")
+	// an image handed out by Decode is given to a lossy Encode (Exact off: the encoder smooths the colour under
+	// transparent pixels - in a copy): the image must be what it was
+	calls[42] = histCall{"Decode(file#16 lossless, coloured transparent pixels) then lossy Encode of the returned image", "", func() (string, any) {
+		im, err := webp.Decode(bytes.NewReader(files[16]))
+		if err != nil {
+			return "error: " + err.Error(), nil
+		}
+		before := digestImage(im)
+		var buf bytes.Buffer
+		if err := webp.Encode(&buf, im, &webp.EncoderOptions{Quality: 60, Method: 3}); err != nil {
+			return "error: " + err.Error(), nil
+		}
+		s := fmt.Sprintf("%s -> %d bytes %x", before, buf.Len(), hashBytes(buf.Bytes()))
+		if digestImage(im) != before {
+			s += " IMAGE-MODIFIED-BY-ENCODE"
+		}
+		return s, im
+	}}
 	// call 19 (a lossy decode that really fails inside the bitstream) is registered below, once its input file is known
 
 	dec(20, "Decode(corrupted file#10: fails mid-stream)", corruptPayload(files[10], "VP8L"), "lossless.Decoder")
@@ -470,7 +507,7 @@ func runChild(hist []int) []string {
 func checkC11(args []string) {
 	run := vx.NewRun("C11", "model_checking", args)
 	activeRun = run
-	run.Rule = "TLC enumerates all call histories up to MAXLEN over the 39-call alphabet of spec/Pool.tla (lossy/lossless encodes and decodes with equal and different macroblock grids, parallel and serial paths, partitions/segments/SNS/dither/alpha options, decodes that fail mid-picture, animation, mux) together with the predicted pool reuse; every history is executed in one process with empty pools at its start and GC off; each result is compared with the same call made FIRST in a fresh process; all previously returned images/byte slices are re-hashed after every later call. distinct = distinct histories in which the model predicts (and the hook counters confirm) at least one reuse"
+	run.Rule = "TLC enumerates all call histories up to MAXLEN over the 43-call alphabet of spec/Pool.tla (lossy/lossless encodes and decodes with equal and different macroblock grids, parallel and serial paths, partitions/segments/SNS/dither/alpha options, decodes that fail mid-picture, animation, mux) together with the predicted pool reuse; every history is executed in one process with empty pools at its start and GC off; each result is compared with the same call made FIRST in a fresh process; all previously returned images/byte slices are re-hashed after every later call. distinct = distinct histories in which the model predicts (and the hook counters confirm) at least one reuse"
 	run.Assumptions = []string{"a fresh child process executing the call first defines Fresh(args)", "sync.Pool may drop objects: a predicted reuse that did not happen is reported as not covered, never as a violation", "GOMAXPROCS fixed to 8"}
 	runtime.GOMAXPROCS(8)
 	calls, files := buildHistCalls("")
